@@ -193,7 +193,7 @@ func names(ix []int) []string {
 
 type counters struct {
 	calls, sweeps, permSweeps, caseTop, caseNext, caseNone, refTies, refreshTransitions int64
-	distinct                                                                           map[string]struct{}
+	distinct                                                                            map[string]struct{}
 }
 
 type ringSys struct {
@@ -624,7 +624,7 @@ func main() {
 	}
 
 	run.Rule = "E4 part: one evaluation = one real Ring.Locations call; enumerated: every membership of the tier x all 65536 shards x (every insertion permutation of the membership with all members as replicas + MaxReplica 1..3 x every healthy subset incl. none); a case is distinct/non-trivial when it is a different (MaxReplica, healthy subset, statement case, resulting replica list) or a different full rank order, for memberships of >= 2 hosts. " +
-		"E1 part (Locations concurrent with Refresh): one evaluation = one complete interleaved execution on a fresh real ring; enumerated: every ring state (non-empty membership of a 4-host pool, every healthy subset; 80 states) as start state built by New x every single change one Refresh can find (nothing, one member's health flipped, one member gone, one host added healthy/unhealthy, one member replaced by a healthy/unhealthy newcomer) x MaxReplica x representative shards (one per rank order of the pool's hosts) x every interleaving, up to the preemption bound, of one refresher thread (scheduling points: hostlist.Resolve, healthcheck.Run, Watcher.Notify, every lock operation of lib/hashring) with the lookup threads; quick: MaxReplica 1..2, 4 shards (every host at every rank once), one lookup thread with two Locations calls, preemption bound 2; thorough: MaxReplica 1..3 with all 24 rank orders and ALL interleavings, plus two lookup threads (bound 3), plus two-Refresh histories (bound 2); a case is distinct/non-trivial when at least one lookup overlaps a Refresh and (change kind, MaxReplica, per-lookup observation: overlapping or not, invoked after Watcher.Notify, which ring state's replica set was returned / states indistinguishable) differs"
+		"E1 part (Locations concurrent with Refresh): one evaluation = one complete interleaved execution on a fresh real ring; enumerated: every ring state (non-empty membership of a 4-host pool, every healthy subset; 80 states) as start state built by New x every single change one Refresh can find (nothing, one member's health flipped, one member gone, one host added healthy/unhealthy, one member replaced by a healthy/unhealthy newcomer) x MaxReplica x representative shards (one per rank order of the pool's hosts) x every interleaving, up to the preemption bound, of one refresher thread (scheduling points: hostlist.Resolve, healthcheck.Run, Watcher.Notify, every lock operation of lib/hashring) with the lookup threads; quick: MaxReplica 1..2, 4 shards (every host at every rank once), one lookup thread with two Locations calls, preemption bound 2; thorough: MaxReplica 1..3 on the quick space, a single call for a shard of each of the 24 rank orders (bound 2), ALL interleavings without preemption bound (2 shards), two lookup threads (2 shards, bound 3) and every history of two changing Refreshes (MaxReplica 2, 1 shard, bound 2); a case is distinct/non-trivial when at least one lookup overlaps a Refresh and (change kind, MaxReplica, per-lookup observation: overlapping or not, invoked after Watcher.Notify, which ring state's replica set was returned / states indistinguishable) differs"
 	run.Assume("small-scope: memberships from a fixed universe of realistic host:port names: quick 12 memberships of 1..4 of 6 hosts; thorough all 162 subsets of size 1..4 of 8 hosts plus the 6 five-host subsets of the first 6; MaxReplica 1..3 (and = membership size for the order sweep); digest = shard + one of two fixed 60-hex tails")
 	run.Assume("health filter is a fake returning exactly the chosen subset (also the empty set, also for a single member); hostlist is a fake returning the membership as a freshly built map")
 	run.Assume("host discovery order cannot be enumerated through Go map iteration; it is injected by re-ordering the hrw nodes that the real Refresh created (overlay-added accessor VerifSetNodeOrder), then the real Locations runs")
@@ -636,15 +636,17 @@ func main() {
 		run.Violation("Locations terminates the process through log.Fatal ("+msg+"; quiescent ring, E4 sweep)", map[string]interface{}{"msg": msg})
 		os.Exit(1)
 	})
-	e1Cap := 40 * time.Second
+	// time budget of the run: the E1 part first (capped), the E4 sweep gets the rest
+	begin := time.Now()
+	e1Cap := 25 * time.Second
 	if run.Thorough() {
-		e1Cap = 8 * time.Minute
+		e1Cap = 5 * time.Minute
 	}
 	e1Phase(run, e1Cap)
 
-	deadline := time.Now().Add(55 * time.Second)
+	deadline := begin.Add(70 * time.Second)
 	if run.Thorough() {
-		deadline = time.Now().Add(13 * time.Minute)
+		deadline = begin.Add(13 * time.Minute)
 	}
 	type job struct {
 		mi, lo, hi int
